@@ -419,6 +419,7 @@ func init() {
 			{Name: "curved-generic", Quick: 2000, Thorough: 60000, Gen: genC06("curved-generic")},
 			{Name: "boundary-float", Quick: 1000, Thorough: 20000, Gen: genC06("boundary-float"), Note: "vertices of float polylines"},
 			{Name: "ccw-poly", Quick: 1500, Thorough: 40000, Gen: genC06("ccw-poly")},
+			{Name: "ccw-curved", Quick: 1500, Thorough: 40000, Gen: genC06("ccw-curved"), Note: "circles, ellipses, rounded rectangles, quad chains in both orientations (clean since the CCW fix)"},
 			{Name: "filling-poly", Quick: 800, Thorough: 20000, Gen: genC06("filling-poly")},
 			// demoted strata (DESIGN 4.5): the library fails on a large share of these inputs; the failing
 			// inputs are kept as exact-input witnesses in known_findings.json
@@ -429,8 +430,7 @@ func init() {
 			{Name: "curved-endlevel", Quick: 1000, Thorough: 20000, Gen: genC06("curved-endlevel"), WitnessOnly: true, Note: "ray through an end point of a Bezier/arc segment: 25% panics, 15% wrong"},
 			{Name: "boundary-poly", Quick: 1000, Thorough: 20000, Gen: genC06("boundary-poly"), WitnessOnly: true, Note: "vertices and edge midpoints of integer-grid polylines: 0.5% panics"},
 			{Name: "boundary-curved", Quick: 1000, Thorough: 20000, Gen: genC06("boundary-curved"), WitnessOnly: true, Note: "points exactly on curved integer-grid paths: 15% panics, 15% not reported as boundary"},
-			{Name: "ccw-curved", Quick: 1500, Thorough: 20000, Gen: genC06("ccw-curved"), WitnessOnly: true, Note: "CCW of circles/ellipses/rounded rectangles in clockwise orientation: 3% wrong (XMonotone noise at the right-most point)"},
-			{Name: "filling-curved", Quick: 1000, Thorough: 20000, Gen: genC06("filling-curved"), WitnessOnly: true, Note: "Filling inherits the CCW defect for curved contours: 11% wrong"},
+			{Name: "filling-curved", Quick: 1000, Thorough: 20000, Gen: genC06("filling-curved"), WitnessOnly: true, Note: "Filling of nested curved contours: the ray from a contour's start point passes through end points of the other contours' arcs (F-C06-endlevel): 4% wrong"},
 		},
 		NewCase:  func() any { return &c06Case{} },
 		Check:    c06Check,
